@@ -1,6 +1,9 @@
 """C05 - merge obeys identity, one-sided adoption, agreement and side symmetry.
 
-spec : MergeTrace.tla clauses LawHolds (no conflict and merged = expected) and Symmetric (same
+spec : MergeAlgo.tla - a TLA+ transcription of the list differ and of the list merge (chunking, chunk-type switch,
+       concurrent inserts) on which TLC checks the laws for EVERY triple of lists over 3 atoms up to length 2 (quick)
+       / 3 (thorough), and whose decisions are compared with nbdime's (model drift);
+       MergeTrace.tla clauses LawHolds (no conflict and merged = expected) and Symmetric (same
        conflict verdict, same merged document when conflict free, unless SamePositionInsert(ld, rd),
        computed by the specification from the two recorded diffs).
 c->s : notebooks: every base x single-side edit script X from spec/NotebookEdits.tla for the three unary
@@ -82,10 +85,71 @@ def small_doc(d):
     return True
 
 
+ALGO_CFG = """SPECIFICATION Spec
+CONSTANT LineSeps <- PyLineSeps
+CONSTANT MaxLen = %d
+CONSTANT EMIT = %s
+INVARIANT DiffsCorrect
+INVARIANT ChunkShapes
+INVARIANT NoErrorArm
+INVARIANT Applies
+INVARIANT AllLocal
+INVARIANT AllRemote
+INVARIANT Laws
+INVARIANT Symmetric
+INVARIANT DisjointClean
+INVARIANT EmbeddedAllWF
+CONSTRAINT Emit
+CHECK_DEADLOCK FALSE
+"""
+
+
+def merge_algo(chk, maxlen, emit):
+    """Design level: TLC checks the laws on the TLA+ transcription of the list merge (MergeAlgo.tla) for every
+    triple of the universe; with emit the transcription is compared with nbdime's decisions (model drift)."""
+    import json
+    from . import tlc
+    from .encode import dec, enc, enc_diff
+    r = tlc.run("MergeAlgo", ALGO_CFG % (maxlen, "TRUE" if emit else "FALSE"), workers=1 if emit else common.NCPU,
+                timeout=3000, name="MergeAlgo-%d" % maxlen, xmx="8g")
+    if r.invariant_violated or r.error:
+        raise tlc.TLCError("MergeAlgo: %s\n%s" % (r.error, "\n".join(l for l in r.out.splitlines() if not l.startswith('"'))[-2500:]))
+    chk.add_model(r, "MergeAlgo MaxLen=%d (all triples of lists over 3 atoms)" % maxlen)
+    if not emit:
+        return
+    from nbdime.merging.generic import decide_merge
+    from nbdime.merging.decisions import apply_decisions
+    n = drift = 0
+    first = None
+    for m in r.json_lines("MERGE"):
+        b, l, rr = dec(m["base"]), dec(m["local"]), dec(m["remote"])
+        n += 1
+        try:
+            D = decide_merge(b, l, rr)
+            mm = apply_decisions(b, D)
+            got = [{"action": d.action, "conflict": d.conflict, "local_diff": enc_diff(d.local_diff or []),
+                    "local_null": d.local_diff is None, "remote_diff": enc_diff(d.remote_diff or [])} for d in D]
+            gm = enc(list(mm))
+        except Exception as e:  # noqa
+            got, gm = "raised %s" % type(e).__name__, None
+        exp = [{"action": d["action"], "conflict": d["conflict"],
+                "local_diff": d["local_diff"] if isinstance(d["local_diff"], list) else [], "local_null": d["local_null"],
+                "remote_diff": d["remote_diff"] if isinstance(d["remote_diff"], list) else []}
+               for d in (m["D"] if isinstance(m["D"], list) else [])]
+        if json.dumps(got, sort_keys=True) != json.dumps(exp, sort_keys=True) or gm != enc(dec(m["merged"])):
+            drift += 1
+            first = first or {"base": b, "local": l, "remote": rr}
+    chk.notes["MergeAlgo_vs_nbdime"] = {"triples_compared": n, "model_drift": drift, "first_drift": first}
+    chk.count(("MergeAlgo", maxlen), nontrivial=False, n=n)
+
+
 def run():
     chk = Check("C05")
     corp = Corpus(chk)
     r = common.rng("c05")
+    merge_algo(chk, 2, True)
+    if not chk.quick:
+        merge_algo(chk, 3, False)
     if chk.quick:
         pairs = corp.pairs(n_enum=220, n_random=60, salt="c05")
         triples = corp.triples(n_enum=360, n_random=100, salt="c05s")
